@@ -62,7 +62,12 @@ def toTdmsValue : PyVal → Nat × Bytes
     let (s, f) := Timestamp.encodeFloor (us - epochMicros)
     (tyTimeStamp, Timestamp.toBytesLE s f)
   | .rawTimestamp s f => (tyTimeStamp, Timestamp.toBytesLE s f)
-  | .typed code le => (code, le)
+  | .typed code le =>
+    -- `struct.pack('<f', value)` goes through a Python float: a signalling float32 NaN comes out quiet
+    if (code = 9 ∨ code = 25) ∧ le.length = 4 then
+      let b := decLE le
+      if (b / 2 ^ 23) % 256 = 255 ∧ b % 2 ^ 23 ≠ 0 ∧ (b / 2 ^ 22) % 2 = 0 then (code, encLE 4 (b + 2 ^ 22)) else (code, le)
+    else (code, le)
 
 structure WProp where
   name : Bytes
